@@ -97,11 +97,12 @@ theorem abiOK_386_false : abiOK i386 = false := by decide
 theorem wfTarget_shape (tg : Target) (h : wfTarget tg = true) : tg = gcTarget 4 ∨ tg = gcTarget 8 :=
   wfTarget_cases tg h
 
-/-- map descriptors: `KeySize`, `ValueSize` and `BucketSize` are the LLVM sizes of key, element and bucket struct -/
+/-- map descriptors: `KeySize`, `ValueSize` are the LLVM sizes of a key / element slot (the value, or a pointer when it
+    is larger than 128 bytes) and `BucketSize` is the LLVM size of the bucket struct -/
 theorem map_sizes_agree (tg : Target) (h : wfTarget tg = true) (ha : abiOK tg = true) (k v : GoType)
     (hk : padFree tg (toRaw k) = true) (hv : padFree tg (toRaw v) = true)
     (hb : padFree tg (toRaw (mapBucket tg (toRaw k) (toRaw v))) = true) :
-    mapSizes tg k v = ((llvmLayout tg k).size, (llvmLayout tg v).size,
+    mapSizes tg k v = (slotSize tg (llvmLayout tg k).size, slotSize tg (llvmLayout tg v).size,
       (llvmLayout tg (mapBucket tg (toRaw k) (toRaw v))).size) := by
   have e1 := congrArg Layout.size (layout_agree_abi tg h ha k hk)
   have e2 := congrArg Layout.size (layout_agree_abi tg h ha v hv)
